@@ -508,7 +508,15 @@ def _resolve_npath_parent(
     for segment in segments[:-1]:
         key = _format_attr_name(segment)
         try:
-            value = current[key]
+            explicit = _find_named_binding(current.values, key, nested=False)
+            if explicit is not None and _find_named_binding(
+                current.values, key, nested=True
+            ):
+                # A name defined both by `a = { … };` and by `a.b = …;` bindings:
+                # the explicit set is the one that can be walked into.
+                value = explicit.value
+            else:
+                value = current[key]
         except KeyError:
             if not create_missing:
                 raise KeyError(f"NPath segment not found: {segment.name}") from None
@@ -631,7 +639,9 @@ def _set_value_in_attrset(
         target_set[key] = value_expr
         return
 
-    if attrpath_root is not None:
+    if attrpath_root is not None and not _path_exists_in_attrset(
+        target_set, segments
+    ):
         _set_attrpath_value(target_set, attrpath_root, segments, value_expr)
         return
 
@@ -700,7 +710,9 @@ def _remove_value_in_attrset(target_set: AttributeSet, npath: str) -> None:
         del target_set[key]
         return
 
-    if attrpath_root is not None:
+    if attrpath_root is not None and not _path_exists_in_attrset(
+        target_set, segments
+    ):
         _remove_attrpath_value(target_set, segments)
         return
 
@@ -979,7 +991,9 @@ def remove_value(source: NixSourceCode, npath: str) -> str:
             raise KeyError(key)
         del target_set[key]
         return source.rebuild()
-    if resolution.attrpath_root is not None:
+    if resolution.attrpath_root is not None and not _path_exists_in_attrset(
+        target_set, segments
+    ):
         _remove_attrpath_value(target_set, segments)
         return (
             source.rebuild()
